@@ -76,3 +76,154 @@ pub fn run(a: &HashMap<String, String>) -> i32 {
     }
     0
 }
+
+// ------------------------------------------------------------------ the evaluate tool (extended coverage)
+
+/// Best rational approximation p/q of x in [0, 1] with q <= maxden (continued fractions).
+fn to_fraction(x: f64, maxden: u64) -> (u64, u64) {
+    if !(x.is_finite()) {
+        return (0, 0);
+    }
+    let (mut p0, mut q0, mut p1, mut q1) = (0u64, 1u64, 1u64, 0u64);
+    let mut r = x;
+    for _ in 0..64 {
+        let a = r.floor();
+        let (p2, q2) = (a as u64 * p1 + p0, a as u64 * q1 + q0);
+        if q2 > maxden {
+            break;
+        }
+        p0 = p1; q0 = q1; p1 = p2; q1 = q2;
+        let frac = r - a;
+        if frac.abs() < 1e-12 {
+            break;
+        }
+        r = 1.0 / frac;
+    }
+    (p1, q1)
+}
+
+/// `evaluate` on a reference corpus that differs from the tokenizer's own output in known ways:
+/// the printed precision / recall / F1 are recovered as fractions and compared in TLA+ (VEval)
+/// with the counts derived from the reference and the system tokens.
+pub fn run_eval(a: &HashMap<String, String>) -> i32 {
+    let seed: u64 = a.get("seed").and_then(|s| s.parse().ok()).unwrap_or(1);
+    let n: usize = a.get("n").and_then(|s| s.parse().ok()).unwrap_or(10);
+    let bins = a.get("bins").expect("--bins");
+    let tmp = a.get("tmp").expect("--tmp");
+    let out = a.get("out").expect("--out");
+    let bin = |b: &str| format!("{bins}/{b}");
+    let mut rng = Rng::new(seed ^ 0xE7A1);
+    let mut evs: Vec<Value> = vec![];
+    let mut done = 0;
+    while done < n {
+        let cfg = GenCfg { conn_kind: 0, allow_user: false, ..Default::default() };
+        let d = gen_dict(&mut rng, &cfg);
+        let dir = format!("{tmp}/e{done}");
+        std::fs::create_dir_all(&dir).unwrap();
+        let p = |f: &str| format!("{dir}/{f}");
+        std::fs::write(p("lex.csv"), ADict::render_lex(&d.lex)).unwrap();
+        std::fs::write(p("char.def"), d.render_char_def()).unwrap();
+        std::fs::write(p("unk.def"), d.render_unk()).unwrap();
+        if let AConn::Matrix { nr, nl, mat } = &d.conn {
+            std::fs::write(p("matrix.def"), ADict::render_matrix(*nr, *nl, mat)).unwrap();
+        }
+        let (ok, _) = run_out(&bin("compile"), &["-l".into(), p("lex.csv"), "-m".into(), p("matrix.def"), "-c".into(), p("char.def"), "-u".into(), p("unk.def"), "-o".into(), p("dic.zst")], "");
+        if !ok {
+            continue;
+        }
+        let mgl = *rng.pick(&[0usize, 0, 2]);
+        let nsent = 2 + rng.below(8);
+        let sents: Vec<Vec<u32>> = (0..nsent).map(|_| gen_sentence(&mut rng, &d, 8)).map(|s| s.into_iter().filter(|&c| c != 0x0A && c != 0x0D && c != 0x09).collect::<Vec<u32>>()).filter(|s: &Vec<u32>| !s.is_empty()).collect();
+        if sents.is_empty() {
+            continue;
+        }
+        let stdin: String = sents.iter().map(|s| cps_to_string(s) + "\n").collect();
+        let mut targs: Vec<String> = vec!["-i".into(), p("dic.zst"), "-O".into(), "mecab".into()];
+        if mgl != 0 {
+            targs.extend(["-M".into(), mgl.to_string()]);
+        }
+        let (ok_tok, corpus) = run_out(&bin("tokenize"), &targs, &stdin);
+        if !ok_tok {
+            evs.push(json!({"ev": "cli_err", "tool": "tokenize"}));
+            continue;
+        }
+        done += 1;
+        // the system side: the tokenizer's sentences as (surface, feature) lists
+        let mut sys: Vec<Vec<(String, String)>> = vec![];
+        let mut cur = vec![];
+        for l in corpus.lines() {
+            if l == "EOS" {
+                sys.push(std::mem::take(&mut cur));
+            } else if let Some((s, f)) = l.split_once('\t') {
+                cur.push((s.to_string(), f.to_string()));
+            }
+        }
+        // the reference: the same sentences with tokens merged, split or re-labelled
+        let mut reference: Vec<Vec<(String, String)>> = vec![];
+        for ex in &sys {
+            let mut r: Vec<(String, String)> = vec![];
+            let mut i = 0;
+            while i < ex.len() {
+                match rng.below(6) {
+                    0 if i + 1 < ex.len() => {
+                        r.push((format!("{}{}", ex[i].0, ex[i + 1].0), ex[i].1.clone()));
+                        i += 2;
+                        continue;
+                    }
+                    1 if ex[i].0.chars().count() >= 2 => {
+                        let cs: Vec<char> = ex[i].0.chars().collect();
+                        r.push((cs[..1].iter().collect(), ex[i].1.clone()));
+                        r.push((cs[1..].iter().collect(), ex[i].1.clone()));
+                    }
+                    2 => r.push((ex[i].0.clone(), format!("zz,{}", ex[i].1))),
+                    3 => r.push((ex[i].0.clone(), "\"q,r\",other".to_string())),
+                    _ => r.push(ex[i].clone()),
+                }
+                i += 1;
+            }
+            reference.push(r);
+        }
+        let mut text = String::new();
+        for ex in &reference {
+            for (s, f) in ex {
+                text.push_str(&format!("{s}\t{f}\n"));
+            }
+            text.push_str("EOS\n");
+        }
+        std::fs::write(p("ref.txt"), &text).unwrap();
+        let idx: Vec<usize> = match rng.below(4) {
+            0 => vec![0],
+            1 => vec![1, 0],
+            2 => vec![5],
+            _ => vec![],
+        };
+        let mut eargs: Vec<String> = vec!["-t".into(), p("ref.txt"), "-i".into(), p("dic.zst")];
+        if mgl != 0 {
+            eargs.extend(["-M".into(), mgl.to_string()]);
+        }
+        if !idx.is_empty() {
+            eargs.push("--feature-indices".into());
+            eargs.push(idx.iter().map(|i| i.to_string()).collect::<Vec<_>>().join(","));
+        }
+        let (ok_eval, evalout, evalerr) = run_full(&bin("evaluate"), &eargs, "");
+        let metric = |name: &str| -> String { evalout.lines().find_map(|l| l.strip_prefix(&format!("{name} = ")).map(|x| x.trim().to_string())).unwrap_or_default() };
+        let frac = |s: &str| -> Value {
+            match s.parse::<f64>() {
+                Ok(x) if x.is_finite() => { let (p, q) = to_fraction(x, 4000); json!([p, q]) }
+                _ => json!([0, 0]),
+            }
+        };
+        let toks = |exs: &Vec<Vec<(String, String)>>| -> Value {
+            Value::Array(exs.iter().map(|ex| Value::Array(ex.iter().map(|(s, f)| json!({"n": s.chars().count(), "f": string_to_cps(f)})).collect())).collect())
+        };
+        evs.push(json!({"ev": "clieval", "ok": ok_eval, "err": if ok_eval { String::new() } else { evalerr }, "idx": idx, "ref": toks(&reference), "sys": toks(&sys),
+                        "prec": frac(&metric("Precision")), "rec": frac(&metric("Recall")), "f1": frac(&metric("F1")), "f1nan": metric("F1") == "NaN",
+                        "printed": [metric("Precision"), metric("Recall"), metric("F1")]}));
+        let _ = std::fs::remove_dir_all(&dir);
+    }
+    let mut f = std::io::BufWriter::new(std::fs::File::create(out).expect("create"));
+    for e in &evs {
+        writeln!(f, "{}", e).unwrap();
+    }
+    0
+}
